@@ -379,7 +379,27 @@ func checkC06(c *Ctx) {
 						}
 					}
 				}
-				c.Check(g && lblOK, "R4", "dealer-label-if-missing", p.InstrPos(ss.Instr), "dealer label appended to entry 0 only when missing", "entry 0's labels are changed other than by adding a missing dealer label")
+				// the entry tested, the entry extended and the entry written are all entry 0 of the same list
+				tgt := ss.Addr.Strip().Args[0].Strip() // list[k]
+				same := func(x *Sym) bool {
+					x = x.Strip()
+					if !(x.Kind == "field" && x.Name == "Positions") {
+						return false
+					}
+					e := x.Args[0].Strip()
+					k, isK := int64(-1), false
+					if e.Kind == "index" {
+						k, isK = e.Args[1].ConstInt()
+					}
+					return isK && k == 0 && tgt.Kind == "index" && e.Args[0].Strip().String() == tgt.Args[0].Strip().String()
+				}
+				k0, isK0 := int64(-1), false
+				if tgt.Kind == "index" {
+					k0, isK0 = tgt.Args[1].ConstInt()
+				}
+				entry0 := isK0 && k0 == 0 && v.Kind == "builtin" && len(v.Args) >= 1 && same(v.Args[0]) &&
+					guardedBy(p.Guards(ss.Instr), false, func(s *Sym) bool { return s.IsCall("funk.Contains") && same(s.Args[0]) })
+				c.Check(g && lblOK && entry0, "R4", "dealer-label-if-missing", p.InstrPos(ss.Instr), "dealer label appended to entry 0's own labels only when entry 0 lacks it", "entry 0's labels are changed other than by adding a missing dealer label to its own labels")
 			}
 		}
 		c.Min("R4", "label forwards to the hand engine", n, 1)
